@@ -300,6 +300,7 @@ func (o kbOp) String() string {
 }
 
 const uniPass = "пароль✓"
+const wsPass = " pw\n"
 
 func kbAlphabet() []kbOp {
 	long := strings.Repeat("L", 1024)
@@ -312,6 +313,8 @@ func kbAlphabet() []kbOp {
 		{kind: "exportobj", key: 5, p1: "pw"}, {kind: "exportobj", key: 5, p1: ""}, {kind: "exportobj", key: 6, p1: "bad"},
 		{kind: "exportimport", key: 5, p1: "pw", p2: "enc", p3: "enc"}, {kind: "exportimport", key: 5, p1: "pw", p2: "enc", p3: "bad"}, {kind: "exportimport", key: 5, p1: "bad", p2: "enc", p3: "enc"},
 		{kind: "exportimport", key: 6, p1: uniPass, p2: uniPass, p3: uniPass},
+		// passphrases that differ only by surrounding whitespace are different passphrases
+		{kind: "importobj", key: 6, p1: wsPass}, {kind: "sign", key: 6, p1: wsPass}, {kind: "sign", key: 6, p1: "pw"}, {kind: "sign", key: 5, p1: "pw\n"},
 	}
 }
 
@@ -511,9 +514,15 @@ func (c *c19) runKbProgramFrom(mk func() (keys.Keybase, func()), ops []kbOp, pro
 			fail("final-right-passphrase-rejected", "key %s does not open with its passphrase %q: %v", a, p, err)
 			return
 		}
-		if _, _, err := kb1.Sign(addr, p+"x", msg); err == nil {
-			fail("final-wrong-passphrase-accepted", "key %s opens with a wrong passphrase", a)
-			return
+		wrong := []string{p + "x", p + "\n", " " + p}
+		if t := strings.TrimSpace(p); t != p {
+			wrong = append(wrong, t)
+		}
+		for _, w := range wrong {
+			if _, _, err := kb1.Sign(addr, w, msg); err == nil {
+				fail("final-wrong-passphrase-accepted", "key %s (passphrase %q) opens with the wrong passphrase %q", a, p, w)
+				return
+			}
 		}
 	}
 }
